@@ -45,22 +45,7 @@ def mpz_import_obj (z : Mpz) (count : Nat) (order : Int) (size : Nat) (endian : 
   let numb := 8 * size - nail
   let zsize := (count * numb + 63) / 64                                                   -- :51
   let z1 := mpz_realloc z zsize junk                                                      -- :52
-  let endian := if endian = 0 then (-1 : Int) else endian                                 -- :55-56
-  let filled : List Nat :=
-    if nail = 0 ∧ size = 8 ∧ align = 0 ∧ order = -1 ∧ endian = -1 then                   -- :60, 64-71
-      bytesToLimbs (data.take (8 * count))                                -- MPN_COPY
-    else if nail = 0 ∧ size = 8 ∧ align = 0 ∧ order = -1 ∧ endian = 1 then               -- :60, 73-80
-      (bytesToLimbs (data.take (8 * count))).map bswap                    -- MPN_BSWAP
-    else if nail = 0 ∧ size = 8 ∧ align = 0 ∧ order = 1 ∧ endian = -1 then               -- :60, 82-89
-      (bytesToLimbs (data.take (8 * count))).reverse                      -- MPN_REVERSE
-    else                                                                                  -- :92-166
-      let wbytes := numb / 8
-      let wbits := numb % 8
-      let ws := unlayout order endian size count data
-      let s := ws.foldl (fun s w => importWord wbytes wbits w s) { limb := 0, lbits := 0, out := [] }
-      let out := if s.lbits ≠ 0 then s.limb :: s.out else s.out
-      out.reverse
-  let zp := filled.take zsize
+  let zp := (mpz_import_fill false count order size endian nail align data).take zsize   -- :55-166
   let n := normSize zp                                                                    -- :170 MPN_NORMALIZE
   { z1 with d := zp ++ z1.d.drop zp.length, size := (n : Int) }                           -- :171
 
